@@ -351,6 +351,42 @@ def ref_mu(x, N, t):
     return out
 
 
+LONG_PATTERNS = ("all_t", "all_half_u", "mostly_u", "mostly_0", "mix", "alternate", "u_then_0", "0_then_u")
+
+
+def gen_long(rng, combo):
+    """A long sample (hundreds to thousands of draws, as real audits have) described compactly: (cfg, descriptor).
+    Bounds up to 10 (a super-majority with a small required share) so that products of u's leave the double range."""
+    u = rng.choice((2.0, 4.0, 1.5, 1.0, 0.75, 10.0, 1.0625))
+    cfg = gen_cfg(rng, combo=combo, u=u, t=0.5, n_max=30)
+    n = rng.choice((600, 1200, 2500))
+    if cfg["N"] != "inf":
+        cfg["N"] = rng.choice((n, n + 1, 2 * n, 10 * n))
+    cfg.pop("N_warm", None)
+    return cfg, {"pattern": rng.choice(LONG_PATTERNS), "n": n, "seed": rng.randrange(10 ** 9)}
+
+
+def expand_long(desc, cfg):
+    import random as _r
+    r = _r.Random(desc["seed"])
+    u, t, n, pat = cfg["u"], cfg["t"], desc["n"], desc["pattern"]
+    if pat == "all_t":
+        return [t] * n
+    if pat == "all_half_u":
+        return [u / 2] * n
+    if pat == "mostly_u":
+        return [u if r.random() < 0.9 else 0.0 for _ in range(n)]
+    if pat == "mostly_0":
+        return [0.0 if r.random() < 0.9 else u for _ in range(n)]
+    if pat == "mix":
+        return [r.choice((0.0, t, u / 2, u)) for _ in range(n)]
+    if pat == "alternate":
+        return [(0.0, u)[i % 2] for i in range(n)]
+    if pat == "u_then_0":
+        return [u] * (n // 2) + [0.0] * (n - n // 2)
+    return [0.0] * (n // 2) + [u] * (n - n // 2)
+
+
 def in_domain(cfg, x):
     """Documented domain of the test methods (DESIGN C11 F)."""
     N = cfgN(cfg)
